@@ -24,7 +24,11 @@ def typed_value(v, dtype):
 
 
 def typed_values(spec):
-    return [typed_value(v, spec["dtype"]) for v in spec["values"]]
+    out = [typed_value(v, spec["dtype"]) for v in spec["values"]]
+    if spec.get("tz_aware") is not None and spec["dtype"] in ("time", "datetime"):
+        tz = dt.timezone(dt.timedelta(minutes=spec["tz_aware"]))
+        out = [v.replace(tzinfo=tz) for v in out]
+    return out
 
 
 def tuple_text(v):
